@@ -4,9 +4,11 @@ import Sucds.Proofs.SpaceDArray
 import Sucds.Proofs.SpaceEFTop
 import Sucds.Proofs.SpaceDacsTop
 import Sucds.Proofs.SpaceWavelet
+import Sucds.Proofs.SizeInBytes
 /-! # C19 — compressed sizes stay within the documented space bounds
 
-`size_in_bytes()` of a structure is `Codec.size` of its codec (C08: that is the number of bytes written). With
+`size_in_bytes()` of a structure — the expression written in the Rust source, generated as `X.sizeInBytes` — equals
+`Codec.size` of its generated codec (`size_in_bytes_is_codec_size`), which is the number of bytes written (C08). With
 `B = 8 · size_in_bytes` and the bounds in integer form (×100 where the property has decimals), for every build
 configuration and every input:
 * plain bit vector: `B = 64·⌈u/64⌉ + 128 ≤ payload rounded up to 64 + 256`; compact vector: `B = 64·⌈n·w/64⌉ + 256`;
@@ -54,6 +56,16 @@ def Statement : Prop :=
 theorem holds : Statement :=
   ⟨bitvector_bound, compactvector_bound, rank9sel_bound, darray_bound, eliasfano_bound, sarray_bound, psef_bound,
    dacsbyte_bound, dacsopt_bound, waveletmatrix_r9_bound⟩
+
+/-- `size_in_bytes()` as written in the source is the codec size the bounds above are stated for -/
+theorem size_in_bytes_is_codec_size :
+    (∀ x, BV.sizeInBytes x = BV.codec.size x) ∧ (∀ x, CV.sizeInBytes x = CV.codec.size x) ∧
+    (∀ x, R9.sizeInBytes x = R9.codec.size x) ∧ (∀ x, DA.sizeInBytes x = DA.codec.size x) ∧
+    (∀ x, EF.sizeInBytes x = EF.codec.size x) ∧ (∀ x, SA.sizeInBytes x = SA.codec.size x) ∧
+    (∀ x, PS.sizeInBytes x = PS.codec.size x) ∧ (∀ x, DacB.sizeInBytes x = DacB.codec.size x) ∧
+    (∀ x, DacO.sizeInBytes x = DacO.codec.size x) ∧ (∀ k x, WM.sizeInBytes k x = (WM.codec k).size x) :=
+  ⟨BV.sizeInBytes_eq, CV.sizeInBytes_eq, R9.sizeInBytes_eq, DA.sizeInBytes_eq, EF.sizeInBytes_eq, SA.sizeInBytes_eq,
+   PS.sizeInBytes_eq, DacB.sizeInBytes_eq, DacO.sizeInBytes_eq, WM.sizeInBytes_eq⟩
 
 /-- exact sizes of the two plain vectors -/
 theorem bitvector_exact (b : BV) (h : b.Inv) : 8 * BV.codec.size b = 64 * ((b.len + 63) / 64) + 128 := bitvector_bits b h
